@@ -20,24 +20,7 @@
 (* Source cells hold 1, 2, 3, ...; mutable forms write 99 through the      *)
 (* first cell of each returned part before the source is read back.        *)
 (***************************************************************************)
-EXTENDS Serde
-
-Iota1(k, base) == [i \in 1..k |-> base + i - 1]
-Copies(k, v) == [i \in 1..k |-> v]
-
-MacroOK(r) ==
-    CASE r.form \in {"list", "list_trailing", "list_noncopy"} ->
-            /\ r.evals = Iota1(r.k, 0) /\ r.items = Iota1(r.k, 1000) /\ r.len = r.k
-            /\ r.bevals = r.evals /\ r.bitems = r.items /\ r.blen = r.k
-      [] r.form = "const_list" ->
-            /\ r.evals = <<>> /\ r.items = Iota1(r.k, 1000) /\ r.len = r.k /\ r.bitems = r.items /\ r.blen = r.k
-      [] r.form \in {"repeat_ty", "repeat_const"} ->
-            /\ r.evals = <<7>> /\ r.items = Copies(r.k, 1007) /\ r.len = r.k
-            /\ r.bevals = <<7>> /\ r.bitems = r.items /\ r.blen = r.k
-      [] r.form = "const_repeat" ->
-            /\ r.evals = <<>> /\ r.items = Copies(r.k, 1007) /\ r.len = r.k /\ r.bitems = r.items /\ r.blen = r.k
-      [] r.form = "box_repeat_noncopy" ->
-            /\ r.bevals = <<7>> /\ r.bitems = Copies(r.k, 1007) /\ r.blen = r.k
+EXTENDS Serde, MacroDefs
 
 \* sum of the cell values a..b (cells hold their 1-based index; zero-sized elements read as 0)
 SumCells(a, b, ety) == IF ety = "unit" \/ a > b THEN 0 ELSE ((b * (b + 1)) - ((a - 1) * a)) \div 2
